@@ -71,15 +71,20 @@ class C03(Prop):
         # half-received when the connection goes away, the same stream id used again on the next connection), judged here for "the receiver
         # reassembles exactly the original frame"
         from harness.props import c01
+        nrec = npair = 0
         for c in c01.PROP.cases(rng, 'quick' if tier == 'quick' else 'thorough'):
-            if c.get('kind') == 'reconnect':
+            if c.get('kind') == 'reconnect' and nrec < (60 if tier == 'quick' else 1500):
                 out.append({'kind': 'reconnect', 'c01': c})
-                if len([1 for x in out if x.get('kind') == 'reconnect']) >= (60 if tier == 'quick' else 1500):
-                    break
+                nrec += 1
+            elif c.get('kind') != 'reconnect' and c.get('frag') and not c.get('lease') and not c.get('slow_ka') and npair < (60 if tier == 'quick' else 1500):
+                # ... and what a real receiving endpoint (receive loop in front of the cache) hands to the application for every frame
+                # type, requests included: the fragmented full-stack runs of C01
+                out.append({'kind': 'pair', 'c01': c})
+                npair += 1
         return out
 
     def run_impl(self, case):
-        if case.get('kind') == 'reconnect':
+        if case.get('kind') in ('reconnect', 'pair'):
             from harness.props import c01
             return c01.PROP.run_impl(case['c01'])
         from rsocket import frame as F
@@ -179,14 +184,14 @@ class C03(Prop):
         return out
 
     def model_lines(self, case, obs):
-        if case.get('kind') == 'reconnect':
+        if case.get('kind') in ('reconnect', 'pair'):
             return []
         return ['frag ty=%d F=%d lp=%d sid=5 n=%d C=%d md=%d d=%d' % (
             TYPES[case['t']], case['F'], case['lp'], case['n'] if case['t'] in ('REQUEST_STREAM', 'REQUEST_CHANNEL') else 0,
             case['C'] if case['t'] in ('PAYLOAD', 'REQUEST_CHANNEL') else 0, case['md'], case['d'])]
 
     def compare(self, case, obs, answers):
-        if case.get('kind') == 'reconnect':
+        if case.get('kind') in ('reconnect', 'pair'):
             return None
         b = lambda x: '1' if x else '0'
         rows = ' '.join('%d:%s%s%s:n%d:%d:%d:w%d' % (r['ty'], b(r['F']), b(r['C']), b(r['N']), r['n'], r['md'], r['d'], r['w']) for r in obs['rows'])
@@ -198,6 +203,9 @@ class C03(Prop):
 
     def oracle(self, case, obs):
         fails = []
+        if case.get('kind') == 'pair':
+            from harness.props import c01
+            return [{'signature': 'reassembly-at-the-receiving-endpoint:' + f['signature'], 'what': f['what']} for f in c01.PROP.oracle(case['c01'], obs)]
         if case.get('kind') == 'reconnect':
             for who in ('req', 'resp'):
                 if obs['got_' + who] != obs['want_' + who]:
@@ -261,6 +269,8 @@ class C03(Prop):
         return fails
 
     def nontrivial(self, case, obs):
+        if case.get('kind') == 'pair':
+            return json.dumps(case, sort_keys=True)
         if case.get('kind') == 'reconnect':
             return json.dumps(case, sort_keys=True) if not case['c01']['whole'] else None
         if len(obs['rows']) > 1:
@@ -268,8 +278,8 @@ class C03(Prop):
         return None
 
     def stats(self, case, obs):
-        if case.get('kind') == 'reconnect':
-            yield 'kind=reconnect'
+        if case.get('kind') in ('reconnect', 'pair'):
+            yield 'kind=' + case['kind']
             return
         yield 'type=' + case['t']
         yield 'lp=%s' % case['lp']
@@ -283,7 +293,7 @@ class C03(Prop):
             yield 'no-data'
 
     def shrink_candidates(self, case):
-        if case.get('kind') == 'reconnect':
+        if case.get('kind') in ('reconnect', 'pair'):
             return
         for k in ('d', 'md'):
             v = case[k]
